@@ -234,28 +234,40 @@ def run(project: Project, rep, tier: str):
     else:
         rep.unmodelled("SW-PROJ", fi, cb["node"], f"cannot evaluate ({wit})")
     # ---- SW-AVG
-    ar0 = [ev for ev in I.log if ev["kind"] == "arange" and ev["fi"] is fi and not ev["integral"]]
-    loops = [ev for ev in I.log if ev["kind"] == "loop" and ev["fi"] is fi and ev["loop_kind"] == "for"
-             and "carried" in ev and len(ev["carried"]) >= (1 if ar0 else 2)]
-    if not loops:
+    # the sweep over the directions may live in the entry point or be split over helpers of the same module (a generator
+    # of per-direction costs and a routine that averages them): every loop of the module that carries state is read
+    def own(ev):
+        return ev.get("fi") is not None and ev["fi"].module is fi.module
+    ar0 = [ev for ev in I.log if ev["kind"] == "arange" and own(ev) and not ev["integral"]]
+    loops = [ev for ev in I.log if ev["kind"] == "loop" and own(ev) and ev["loop_kind"] == "for"
+             and "carried" in ev and len(ev["carried"]) >= 1]
+    def _has_l1(c):
+        u_ = c["update"].e if isinstance(c.get("update"), Sc) else None
+        return u_ is not None and any(x[0] == "fn" and x[1] in ("l1_sorted", "l1_positional") for x in sym.walk(u_))
+    whole = [lp_ for lp_ in loops if len(lp_["carried"]) >= (1 if ar0 else 2)
+             and any(c.get("kind") == "fold" and _has_l1(c) for c in lp_["carried"].values())]
+    split = not whole and len(loops) >= 2
+    if not whole and not split:
         rep.unmodelled("SW-AVG", fi, fi.node, "direction loop not found")
         return
-    lp = loops[-1]
+    lp = whole[-1] if whole else loops[-1]
     M = sym.Sym("M")
-    ar = [ev for ev in I.log if ev["kind"] == "arange" and ev["fi"] is fi and not ev["integral"]]
+    ar = [ev for ev in I.log if ev["kind"] == "arange" and own(ev) and not ev["integral"]]
     if ar:
         rep.refuted("SW-AVG", fi, ar[0]["node"],
                     f"the directions come from np.arange({sym.show(ar[0]['lo'])}, {sym.show(ar[0]['hi'])}, {sym.show(ar[0]['step'])}) "
                     f"with a non-integer step: its length is ceil((hi−lo)/step) evaluated in floating point, which is M+1 for "
                     f"M = 49, 98, 103, 107, … — one direction is counted twice while each still weighs 1/M",
                     failing_input="M=49: 50 directions, result 3.9% too high")
-    elif sym.equal(lp["space"].size, M):
-        rep.discharged("SW-AVG", fi, lp["node"], "the loop makes exactly M trips", nontrivial=False)
+    elif all(sym.equal(lp_["space"].size, M) for lp_ in (loops if split else [lp])):
+        rep.discharged("SW-AVG", fi, lp["node"], "the loop makes exactly M trips" if not split else
+                       f"the {len(loops)} loops of the sweep (costs produced, costs averaged) make exactly M trips each", nontrivial=False)
     else:
-        rep.refuted("SW-AVG", fi, lp["node"], f"the loop makes {sym.show(lp['space'].size)} trips instead of M")
-    acc = [(n, c) for n, c in lp["carried"].items() if c.get("kind") == "fold"]
+        bad_ = [lp_ for lp_ in (loops if split else [lp]) if not sym.equal(lp_["space"].size, M)][0]
+        rep.refuted("SW-AVG", bad_.get("fi") or fi, bad_["node"], f"the loop makes {sym.show(bad_['space'].size)} trips instead of M")
+    acc = [(n, c, lp_) for lp_ in (loops if split else [lp]) for n, c in lp_["carried"].items() if c.get("kind") == "fold"]
     found_acc = found_theta = False
-    for n, c in acc:
+    for n, c, lp in acc:
         ph = c["placeholder"]
         upd = c["update"].e if isinstance(c["update"], Sc) else None
         if upd is None:
